@@ -60,6 +60,7 @@ type transSpec struct {
 	topCont    bool              // `continue` outside a translated loop ends the translated block
 	closeEv    bool              // close(ch) appends ch to the event list
 	join       bool              // the statements after an if become a shared local continuation (no duplication)
+	zero       map[string]string // Go type (printed) -> Lean zero value, for `var x T`
 }
 
 type translator struct {
@@ -380,7 +381,36 @@ func (t *translator) stmts(list []ast.Stmt, next func() string, cont, brk string
 			elsePart = tail()
 		}
 		return "(if " + cond + " then " + thenPart + " else " + elsePart + ")"
+	case *ast.DeclStmt:
+		// `var x T`: the zero value
+		if gd, ok := x.Decl.(*ast.GenDecl); ok && gd.Tok == token.VAR {
+			out := tail()
+			okAll := true
+			for i := len(gd.Specs) - 1; i >= 0; i-- {
+				vs := gd.Specs[i].(*ast.ValueSpec)
+				z, okz := t.spec.zero[goStr(vs.Type)]
+				if !okz || len(vs.Values) != 0 {
+					okAll = false
+					break
+				}
+				for j := len(vs.Names) - 1; j >= 0; j-- {
+					out = "(let " + vs.Names[j].Name + " := " + z + "; " + out + ")"
+				}
+			}
+			if okAll {
+				return out
+			}
+		}
+		return t.fail("unsupported declaration %s", goStr(x))
 	case *ast.AssignStmt:
+		if len(x.Lhs) == 2 && len(x.Rhs) == 2 && x.Tok == token.ASSIGN {
+			// a, b = e1, e2 on tracked variables: both right-hand sides first
+			l0, ok0 := t.lookup(x.Lhs[0])
+			l1, ok1 := t.lookup(x.Lhs[1])
+			if ok0 && ok1 {
+				return "(let (" + l0 + ", " + l1 + ") := (" + t.expr(x.Rhs[0]) + ", " + t.expr(x.Rhs[1]) + "); " + tail() + ")"
+			}
+		}
 		if len(x.Rhs) == 1 {
 			if bs, ok := t.spec.binds[goStr(x.Rhs[0])]; ok && x.Tok == token.DEFINE {
 				// `a, b := call`: the call is an effect, its results are inputs of the generated definition
@@ -446,11 +476,18 @@ func (t *translator) stmts(list []ast.Stmt, next func() string, cont, brk string
 		if k, ok := x.Key.(*ast.Ident); ok && k.Name != "_" {
 			// key and value of a tracked map: the association list is walked in list order
 			ln, okl := t.lookup(x.X)
-			if _, okm := t.spec.mapDefault[ln]; !okl || !okm {
-				return t.fail("range with an index variable over something that is not a tracked map")
+			if _, okm := t.spec.mapDefault[ln]; okl && okm {
+				pre = "let " + k.Name + " := kv.1; let " + v + " := kv.2; "
+				v = "kv"
+			} else {
+				// index and element of a slice
+				t.loops++
+				kont := fmt.Sprintf("kont%d", t.loops)
+				exit := fmt.Sprintf("exit%d", t.loops)
+				body := t.stmts(x.Body.List, func() string { return strings.TrimSpace(kont + " " + t.stArgs()) }, kont, exit)
+				after := tail()
+				return "(let " + exit + " := " + t.stFun() + after + "; List.foldr (fun kv " + kont + " => let " + v + " := kv.1; let " + k.Name + " := kv.2; " + t.stFun() + body + ") " + exit + " (" + t.expr(x.X) + ").zipIdx " + t.stArgs() + ")"
 			}
-			pre = "let " + k.Name + " := kv.1; let " + v + " := kv.2; "
-			v = "kv"
 		} else if ln, okl := t.lookup(x.X); okl {
 			if _, okm := t.spec.mapDefault[ln]; okm {
 				// the values of a tracked map
@@ -913,6 +950,61 @@ func genDB(repo, out string) {
 		d = fmt.Sprintf("/-- UNTRANSLATABLE: %s -/\ndef %s : Unit := ()\n", strings.ReplaceAll(err.Error(), "-/", "- /"), spec.leanName)
 	}
 	sb.WriteString(d + "\nend GenDB\n")
+	if err := os.WriteFile(out, []byte(sb.String()), 0644); err != nil {
+		fatal(err)
+	}
+}
+
+// genLSM writes Generated/LSM.lean: levelManager.searchLowerBound
+func genLSM(repo, out string) {
+	p := parseDir(repo)
+	var sb strings.Builder
+	sb.WriteString("import Originium.Model.Levels\n")
+	sb.WriteString("/-! GENERATED by /verif/extract (gotrans.go) from /repo/level.go on every check run. Do not edit.\n")
+	sb.WriteString("    `searchLowerBound`: levelManager.searchLowerBound over the tables of every level.  Parameters: `mayContain th user`\n")
+	sb.WriteString("    (the bloom filter), `idxLB th key` (`Index.LowerBound`: which data block), `fetchLB th block key`\n")
+	sb.WriteString("    (`fetchAndSearchLowerBound`: the lower bound inside that block); `types.IsSameKey` compares user keys and\n")
+	sb.WriteString("    `types.CompareKeys(a, b) < 0` is `vlt`.  `Model/LSMTie.lean` proves that this is `LSM.search`. -/\n")
+	sb.WriteString("set_option linter.unusedVariables false\nnamespace GenLSM\nopen VKey Levels\n\n")
+	fd := findFunc(p, "levelManager", "searchLowerBound")
+	dflt := "(⟨⟨[], 0⟩, [], false, 0⟩ : E)"
+	spec := transSpec{
+		leanName: "searchLowerBound",
+		binders:  "{T : Type} (mayContain : T → Key.Bytes → Bool) (idxLB : T → VK → Option Nat) (fetchLB : T → Nat → VK → Option E) (levels : List (List T)) (key : VK)",
+		retType:  "Option E",
+		exprMap: map[string]string{"lm.levels": "levels", "tables": "tables", "e.Value.(tableHandle)": "e",
+			"th.filter.Contains(types.ParseKey(key))": "(mayContain th key.user)",
+			"types.IsSameKey(key, entry.Key)":          "(key.user == entry.key.user)",
+			"types.CompareKeys(entry.Key, res.Key) < 0": "(vlt entry.key res.key)",
+			"types.Entry{}":                             dflt},
+		binds: map[string][][2]string{
+			"th.dataBlockIndex.LowerBound(key)": {{"dataBlockHandle", "((idxLB th key).getD 0)"}, {"ok", "(idxLB th key).isSome"}},
+			"lm.fetchAndSearchLowerBound(key, level, th.levelIdx, dataBlockHandle)": {{"entry", "((fetchLB th dataBlockHandle key).getD " + dflt + ")"}, {"ok", "(fetchLB th dataBlockHandle key).isSome"}},
+		},
+		state: []string{"res", "found"}, stateLn: []string{"res", "found"},
+		zero: map[string]string{"types.Entry": dflt, "bool": "false"},
+		ret: func(vals []string, st []string) string {
+			return "(if " + vals[1] + " then some " + vals[0] + " else none)"
+		},
+		fallOff:  func(st []string) string { return "none" },
+		panicVal: "none",
+		skipCall: func(c *ast.CallExpr) bool {
+			s := goStr(c)
+			return strings.HasPrefix(s, "vhook.") || s == "lm.mu.Lock()" || s == "lm.mu.Unlock()"
+		},
+	}
+	var d string
+	err := fmt.Errorf("levelManager.searchLowerBound not found")
+	if fd != nil {
+		t := &translator{spec: spec}
+		tr := t.stmts(fd.Body.List, func() string { return "none" }, "", "")
+		err = t.err
+		d = fmt.Sprintf("def %s %s : %s :=\n  let res : E := %s\n  let found : Bool := false\n  %s\n", spec.leanName, spec.binders, spec.retType, dflt, tr)
+	}
+	if err != nil {
+		d = fmt.Sprintf("/-- UNTRANSLATABLE: %s -/\ndef %s : Unit := ()\n", strings.ReplaceAll(err.Error(), "-/", "- /"), spec.leanName)
+	}
+	sb.WriteString(d + "\nend GenLSM\n")
 	if err := os.WriteFile(out, []byte(sb.String()), 0644); err != nil {
 		fatal(err)
 	}
